@@ -73,6 +73,19 @@ CLAIMED["C05"] = dict(
          "match is not modelled.",
     technique="TLA+ transcription of the compiler's bookkeeping model-checked with TLC; predicted event lists replayed on instrumented runtimes; trace validation",
 )
+CLAIMED["C11"] = dict(
+    category="model_checking",
+    text="Scheduler.tla models the two scheduler mechanisms action by action (VM: mpsc channel drained against the previous "
+         "clock, then pop-and-run; WASM: trampoline check + shared heap, drain-then-run). TLC explores every task configuration "
+         "of the bound (global-scope, dsp-scheduled and self-rescheduling tasks, equal times, periods) per mechanism and checks "
+         "exactly-once-on-time, nothing-missed-before-dsp and never-refused, and that both mechanisms predict the same counter "
+         "vectors. Every configuration is printed as a program (integral and fractional times) and replayed on the real VM and "
+         "WASM runtimes; dsp must see the predicted counters at every sample.",
+    design_ref="DESIGN.md §6 C11",
+    note="WASM is replayed only on configurations scheduled from global scope without rescheduling (pinned finding: closures "
+         "created at run time live in per-tick scratch memory on WASM). Effects of equal-time tasks commute by construction.",
+    technique="TLA+ mechanism model checked with TLC for all bounded task configurations; configurations replayed on both runtimes",
+)
 NOT_YET = {}
 
 checks = []
